@@ -168,6 +168,10 @@ func c17Impl1(in []int64, disturb bool) []int64 {
 var c17Pieces = [][]byte{
 	[]byte("a"), []byte("Z"), []byte("_"), []byte("é"), []byte("€"), []byte("😀"), []byte("�"),
 	{0xff}, {0x80}, {0xe2, 0x82}, {0xf0, 0x9f, 0x98}, {0xed, 0xa0, 0x80}, {0xc0, 0x80}, {0xf4, 0x90, 0x80, 0x80}, []byte("7"), []byte("中"),
+	// runes of special Unicode classes (the property counts runes and gives every non-ASCII rune width 2, whatever its class):
+	// zero width joiner, variation selector 16, combining acute, ideographic space, soft hyphen, a title-case letter, a
+	// regional indicator, BOM / zero width no-break space, line separator
+	[]byte("\u200d"), []byte("\ufe0f"), []byte("\u0301"), []byte("\u3000"), []byte("\u00ad"), []byte("\u01c5"), []byte("\U0001F1E9"), []byte("\ufeff"), []byte("\u2028"),
 }
 
 // number of pieces used by the exhaustive part (the first k of the table)
